@@ -470,7 +470,7 @@ func numberBoundaryTexts() []string {
 		"3.4028235e+38", "3.4028234663852886e+38", "3.4028235677973366e+38", "3.4028236e+38", "3.5e38", "1e-45", "1e-46", "7e-46",
 		"1.00000005960464477539062500001", "1.000000059604644775390625", "16777217.0000000000000001", "16777217", "16777216.999999999",
 		"1.7976931348623157e308", "1.7976931348623159e308", "1e309", "4.9e-324", "2e-324", "2.4703282292062328e-324",
-		"9007199254740993", "0.1e1", "1E2", "1.0e+2", "-0.0", "-0", "1e-7", "123456789012345678901234567890"}
+		"9007199254740993", "0.1e1", "1E2", "1.0e+2", "-0.0", "-0", "1e-7", "123456789012345678901234567890", "1e05", "2.5E+05", "1e-07", "0.0e00", "1e007", "10E-01"}
 	var out []string
 	for _, l := range lits {
 		out = append(out, l, `"`+l+`"`, `[`+l+`]`, `{"A":`+l+`}`, `{"A":"`+l+`"}`, `{"x":`+l+`,"b<":`+l+`}`, `{"10":`+l+`}`)
